@@ -94,8 +94,12 @@ inline const std::vector<GetterDesc>& getter_table() {
 #define API_GETTER(Q, T, N, R) \
         t.push_back(GetterDesc{#T "." #N, [](const Tins::PDU& p) { return dynamic_cast<const Q*>(&p) != 0; }, \
                                [](const Tins::PDU& p) { return show(static_cast<const Q&>(p).N()); }});
+#define API_GETTER_NC(Q, T, N, R) \
+        t.push_back(GetterDesc{#T "." #N, [](const Tins::PDU& p) { return dynamic_cast<const Q*>(&p) != 0; }, \
+                               [](const Tins::PDU& p) { return show(const_cast<Q&>(static_cast<const Q&>(p)).N()); }});   /* read accessor not declared const */
 #include "api.inc"
 #undef API_GETTER
+#undef API_GETTER_NC
     }
     return t;
 }
